@@ -2,7 +2,11 @@
    so every flavour first stores (term_id, resulting_offset) into the raw tail and then writes frames at the
    term offset the publication passes in.  append_unfragmented_message_bulk is modelled as repaired
    (fixes/C18-bulk.diff); its loop is the same as the shared appender's.  Definitions only. *)
-Require Import V.Base.MachineInt V.Generated.GenConsts V.Model.Descriptor V.Model.LogBase V.Model.Appender.
+Require Import V.Base.MachineInt.
+Require Import V.Generated.GenConsts.
+Require Import V.Model.Descriptor.
+Require Import V.Model.LogBase.
+Require Import V.Model.Appender.
 Open Scope Z_scope.
 
 (* put_raw_tail_ordered: (term_id as i64 * (1 << 32)) | term_offset as i64 *)
